@@ -903,9 +903,9 @@ class Parser:
         self._tokenizer._proc_macro = True
         return a
 
-    def proc_macro_arg(self, a: list[TokenInfo | str], **locs: int) -> ast.Constant:
+    def proc_macro_arg(self, a: TokenInfo | str | None, **locs: int) -> ast.Constant:
         locs["col_offset"] += 1  # offset `!`
-        st = "".join((tok.string if isinstance(tok, TokenInfo) else tok) for tok in a).strip()
+        st = (a.string if isinstance(a, TokenInfo) else a or "").strip()
         self._tokenizer._proc_macro = False
         return ast.Constant(value=st, **locs)
 
